@@ -17,8 +17,8 @@ BLK = 4096
 
 TIERS = {
     # cases, errnos per site, fsize sample, double-fault sample per case, determinism re-runs
-    "quick": {"cases": 160, "all_errnos": False, "fsize_samples": 6, "fsize_all_below": 2048, "doubles": 3, "redo": 6, "budget_s": 240},
-    "thorough": {"cases": 640, "all_errnos": True, "fsize_samples": 48, "fsize_all_below": 16384, "doubles": 10**9, "redo": 40, "budget_s": 3000},
+    "quick": {"cases": 160, "all_errnos": False, "fsize_samples": 6, "fsize_all_below": 2048, "doubles": 3, "redo": 6, "budget_s": 900},
+    "thorough": {"cases": 640, "all_errnos": True, "fsize_samples": 48, "fsize_all_below": 16384, "doubles": 10**9, "redo": 40, "budget_s": 9000},
 }
 
 OPEN_W_ERR = ["ENOSPC", "EACCES", "EMFILE", "ENOENT"]
